@@ -9,7 +9,7 @@ DOM-26  Mode.stop clears the mode's delays
 """
 import ast
 
-from sa.model import src, short, dotted, call_attr, kwarg, walk_local, AnalysisError, const_value
+from sa.model import src, short, dotted, call_attr, kwarg, walk_local, AnalysisError, const_value, assigned_targets
 from sa.helpers import is_snapshot, base_container
 from sa.index import get_index
 from sa.units import Units, load_spec, MS, S, ABS
@@ -316,6 +316,11 @@ def check(chk):
     f = tm.methods["pause"]
     cfg = f.cfg()
     ad = [(n, c) for n, c in cfg.calls_named("add", "reset") if "delay" in src(c.func) and "pause" in src(c)]
+    alld = [(n, c) for n, c in cfg.calls_named("add", "reset", "add_if_doesnt_exist") if "delay" in src(c.func)]
+    for n, c in alld:
+        nm = kwarg(c, "name")
+        chk.ob("FLAG-3", "the timed-pause delay is filed under the name start()/stop() cancel ('pause')", nm is not None and const_value(nm) == "pause",
+               f.where(c), construct=f.ident, text="pause delay name")
     for n, c in ad:
         cb = kwarg(c, "callback")
         ms = kwarg(c, "ms")
@@ -366,6 +371,8 @@ def check(chk):
         ok = bool(sn) and fcfg.must_pass(fcfg.entry.id, sn) is None
         chk.ob("FLAG-3", "Timer.%s stops the timer" % name, ok, f.where(), construct=f.ident, text=name + " stops")
     chk.floor("FLAG-3", 14)
+    _done_rules(chk, repo, tm)
+    _delay_api(chk, repo)
 
     # -------------------------------------------------------------- DOM-26
     f = repo.func("mpf/core/mode.py", "Mode.stop")
@@ -374,13 +381,132 @@ def check(chk):
     mark = [n for n in cfg.nodes_where(lambda n: n.kind == "stmt" and isinstance(n.ast, ast.Assign) and
                                        src(n.ast.targets[0]) == "self.stopping" and src(n.ast.value) == "True")]
     clr = [n.id for n, c in cfg.calls_named("clear") if src(c.func.value) == "self.delay"]
-    chk.require(mark, "C13: Mode.stop no longer marks stopping")
+    if not mark:
+        # the stop protocol itself is C07's subject; here only: whatever path gets past the guards clears the delays
+        mark = [cfg.entry]
     w = cfg.must_pass(mark[0].id, clr) if not any(cfg.dominates(c, mark[0].id) for c in clr) else None
     chk.ob("DOM-26", "an accepted Mode.stop clears the mode's delays", bool(clr) and w is None, f.where(),
            path=cfg.fmt_path(w, "mpf/core/mode.py") if w else None, construct=f.ident, text="mode stop clears delays")
     init = repo.func("mpf/core/mode.py", "Mode.__init__")
     ok = any(isinstance(n, ast.Assign) and src(n.targets[0]) == "self.delay" and "DelayManager" in src(n.value) for n in walk_local(init.node))
     chk.ob("DOM-26", "each mode owns its DelayManager", ok, init.where(), construct=init.ident, text="mode delay manager")
+
+
+def _done_rules(chk, repo, tm):
+    """DONE-1: whoever changes the count checks for completion afterwards; DONE-2: the check reports what it did."""
+    # methods that check first thing / on every path
+    checking = {"_check_for_done"}
+    changed = True
+    while changed:
+        changed = False
+        for name, m in tm.methods.items():
+            if name in checking:
+                continue
+            cfg = m.cfg()
+            via = [n.id for n in cfg.nodes if n.kind != "branch" and any(call_attr(c) in checking and isinstance(c.func, ast.Attribute)
+                                                                          and src(c.func.value) == "self" for c in n.calls())]
+            if via and cfg.must_pass(cfg.entry.id, via) is None:
+                checking.add(name)
+                changed = True
+    EXEMPT = {"__init__": "construction", "_initialize": "initial values", "device_loaded_in_mode": "start value; start() checks before running",
+              "ticks": "the property setter itself"}
+    k = 0
+    for name, m in tm.methods.items():
+        if name in EXEMPT:
+            continue
+        cfg = m.cfg()
+        stores = [n for n in cfg.nodes if n.kind == "stmt" and isinstance(n.ast, (ast.Assign, ast.AugAssign)) and
+                  any(src(t) == "self.ticks" for t in assigned_targets(n.ast))]
+        if not stores:
+            continue
+        chk.analysed(m)
+        via = [n.id for n in cfg.nodes if n.kind != "branch" and any(call_attr(c) in checking and isinstance(c.func, ast.Attribute)
+                                                                      and src(c.func.value) == "self" for c in n.calls())]
+        for st in stores:
+            # a later store on the same path re-opens the obligation, so look from the last store on each path:
+            w = cfg.must_pass(st.id, via + [x.id for x in stores if x.id != st.id])
+            k += 1
+            chk.ob("DONE-1", "Timer.%s checks for completion after changing the count" % name, bool(via) and w is None, m.where(st.ast),
+                   path=cfg.fmt_path(w, TM) if w else None,
+                   detail="a count that reaches the end value through this method would not complete the timer",
+                   construct=m.ident, text="ticks changed without completion check in " + name)
+    chk.floor("DONE-1", 4)
+    f = tm.methods["_check_for_done"]
+    cfg = f.cfg()
+    comp = [n.id for n, c in cfg.calls_named("timer_complete")]
+    for r in cfg.nodes_where(lambda r: r.kind == "stmt" and isinstance(r.ast, ast.Return)):
+        v = const_value(r.ast.value) if r.ast.value is not None else None
+        after_complete = any(cfg.dominates(c, r.id) for c in comp)
+        chk.ob("DONE-2", "_check_for_done returns True exactly when it completed the timer", (v is True) == after_complete and
+               (r.ast.value is not None or not after_complete), f.where(r.ast), detail="returns %s after completion: %s" % (src(r.ast.value) if r.ast.value else None, after_complete),
+               construct=f.ident, text="done result " + short(r.ast, 40))
+    st = tm.methods["start"]
+    scfg = st.cfg()
+    run_set = [n for n in scfg.nodes_where(lambda n: n.kind == "stmt" and isinstance(n.ast, ast.Assign) and src(n.ast.targets[0]) == "self.running"
+                                           and src(n.ast.value) == "True")]
+    for n in run_set:
+        g = scfg.guards_at(n.id)
+        chk.ob("DONE-2", "a timer that is already at its end value completes instead of starting", g.get("self._check_for_done()") is False,
+               st.where(n.ast), detail="guards %s" % sorted(g.items()), construct=st.ident, text="start checks done first")
+    chk.floor("DONE-2", 3)
+    # count limits
+    for name in ("add", "jump"):
+        m = tm.methods[name]
+        cmps = [x for x in ast.walk(m.node) if isinstance(x, ast.Compare) and "self.max_value" in src(x) and len(x.ops) == 1
+                and not isinstance(x.ops[0], (ast.Is, ast.IsNot))]
+        ok = bool(cmps) and all((isinstance(x.ops[0], ast.Gt) and src(x.comparators[0]) == "self.max_value") or
+                                (isinstance(x.ops[0], ast.Lt) and src(x.left) == "self.max_value") for x in cmps)
+        chk.ob("DONE-2", "Timer.%s caps the count at max_value (only above it)" % name, ok, m.where(), construct=m.ident,
+               text="max_value cap in " + name)
+
+
+def _delay_api(chk, repo):
+    """FWD-13: reset / add_if_doesnt_exist hand everything to add(); add() keys unnamed delays uniquely and returns the key."""
+    from sa.helpers import forwarded
+    dm = repo.cls(DL, "DelayManager")
+    add = dm.methods["add"]
+    for wname in ("reset", "add_if_doesnt_exist"):
+        w = dm.methods.get(wname)
+        if w is None:
+            chk.expect(False, "C13: DelayManager.%s vanished" % wname)
+            continue
+        chk.analysed(w)
+        calls = [c for c in ast.walk(w.node) if isinstance(c, ast.Call) and call_attr(c) == "add" and src(c.func.value) == "self"]
+        if not calls:
+            chk.missing("FWD-13", "DelayManager.%s (re)creates the delay through add()" % wname, w)
+            continue
+        for c in calls:
+            forwarded(chk, "FWD-13", w, c, add, same=("ms", "callback", "name"), require_all=True)
+            ok = any(k.arg is None and src(k.value) == "kwargs" for k in c.keywords)
+            chk.ob("FWD-13", "%s passes the callback's kwargs on to add()" % wname, ok, w.where(c), construct=w.ident,
+                   text=wname + " drops **kwargs")
+        cfg = w.cfg()
+        rets = [r for r in cfg.nodes_where(lambda r: r.kind == "stmt" and isinstance(r.ast, ast.Return))]
+        ok = bool(rets) and all(r.ast.value is not None and (src(r.ast.value) == "name" or call_attr(r.ast.value) == "add") for r in rets) and \
+            cfg.must_pass(cfg.entry.id, [r.id for r in rets]) is None
+        chk.ob("FWD-13", "%s returns the delay's name" % wname, ok, w.where(), construct=w.ident, text=wname + " return value")
+    cfg = add.cfg()
+    rets = [r for r in cfg.nodes_where(lambda r: r.kind == "stmt" and isinstance(r.ast, ast.Return))]
+    ok = bool(rets) and all(r.ast.value is not None and src(r.ast.value) == "name" for r in rets) and cfg.must_pass(cfg.entry.id, [r.id for r in rets]) is None
+    chk.ob("FWD-13", "add() returns the name the delay is filed under", ok, add.where(), construct=add.ident, text="add return value")
+    stores = [n for n in cfg.nodes_where(lambda n: n.kind == "stmt" and isinstance(n.ast, ast.Assign) and src(n.ast.targets[0]) == "self.delays[name]")]
+    uniq = [n for n in cfg.nodes_where(lambda n: n.kind == "stmt" and isinstance(n.ast, ast.Assign) and src(n.ast.targets[0]) == "name"
+                                       and "uuid" in src(n.ast.value))]
+    for st in stores:
+        from sa.helpers import feasible_paths
+        bad = None
+        for path, facts in feasible_paths(cfg, cfg.entry.id, [st.id]):
+            named = facts.get("name") is True or facts.get("not name") is False or facts.get("name is None") is False
+            if not named and not (set(path) & {u.id for u in uniq}):
+                bad = path
+                break
+        chk.ob("FWD-13", "an unnamed delay is filed under a fresh unique key (unnamed delays never replace each other)", bad is None,
+               add.where(st.ast), path=cfg.fmt_path(bad, DL) if bad else None, construct=add.ident, text="unnamed delay key")
+    for u in uniq:
+        g = cfg.guards_at(u.id)
+        chk.ob("FWD-13", "a caller's name is never replaced", g.get("name") is False or g.get("not name") is True or g.get("name is None") is True,
+               add.where(u.ast), detail="guards %s" % sorted(g.items()), construct=add.ident, text="name overwritten")
+    chk.floor("FWD-13", 10)
 
 
 def assigned(stmt):
@@ -425,6 +551,17 @@ def battery():
         M("twin: aug-assign grid", CK, "        self._last_call = self._last_call + self._interval", "        self._last_call += self._interval", None),
         M("twin: record as partial via local", DL, "        self.delays[name] = (self.machine.clock.schedule_once(\n            partial(self._process_delay_callback, name, callback, **kwargs),\n            ms / 1000.0), partial(callback, **kwargs))", "        bound = partial(callback, **kwargs)\n        self.delays[name] = (self.machine.clock.schedule_once(\n            partial(self._process_delay_callback, name, callback, **kwargs),\n            ms / 1000.0), partial(callback, **kwargs))", None),
         M("twin: stop reordered", TM, "        self.delay.remove('pause')\n\n        self.running = False\n        self._remove_system_timer()", "        self.running = False\n        self._remove_system_timer()\n        self.delay.remove('pause')\n", None),
+        M("add() skips the completion check", TM, "            ticks_added: How many ticks were just added.\n        \'\'\'\n\n        self._check_for_done()", "            ticks_added: How many ticks were just added.\n        \'\'\'\n", "DONE-1"),
+        M("jump() skips the completion check", TM, "        self._remove_system_timer()\n        self._create_system_timer()\n\n        self._check_for_done()", "        self._remove_system_timer()\n        self._create_system_timer()", "DONE-1"),
+        M("tick without completion check", TM, "            self.ticks += 1\n\n        self._post_tick_events()", "            self.ticks += 1\n", "DONE-1"),
+        M("done check reports False after completing", TM, "                self.ticks <= self.end_value):\n            self.timer_complete()\n            return True", "                self.ticks <= self.end_value):\n            self.timer_complete()\n            return False", "DONE-2"),
+        M("finished timer can be started", TM, "        if self._check_for_done():\n            return\n\n        self.running = True", "        self._check_for_done()\n\n        self.running = True", "DONE-2"),
+        M("add caps at >= max", TM, "if self.max_value and new_value > self.max_value:", "if self.max_value and new_value < self.max_value:", "DONE-2"),
+        M("reset drops the callback kwargs", DL, "        return self.add(ms, callback, name, **kwargs)\n\n    def clear", "        return self.add(ms, callback, name)\n\n    def clear", "FWD-13"),
+        M("add_if_doesnt_exist swaps ms/callback", DL, "            return self.add(ms, callback, name, **kwargs)\n\n        return name", "            return self.add(callback, ms, name, **kwargs)\n\n        return name", "FWD-13"),
+        M("unnamed delays share one key", DL, "        if not name:\n            name = str(uuid.uuid4())\n", "", "FWD-13"),
+        M("add returns nothing", DL, "            ms / 1000.0), partial(callback, **kwargs))\n\n        return name", "            ms / 1000.0), partial(callback, **kwargs))\n", "FWD-13"),
+        M("pause delay unnamed", TM, "self.delay.add(name='pause', ms=pause_ms,", "self.delay.add(ms=pause_ms,", "FLAG-3"),
     ]
 
 
